@@ -1,9 +1,17 @@
-"""(T) translator for C10: regenerates coq/Gen/C10_tables.v from /repo/src/_griffe/diff.py.
+"""(T) translator for C10: regenerates coq/Gen/C10_tables.v and coq/Gen/C10_rules.v from /repo/src/_griffe.
 
 Fail closed: any AST shape outside the whitelist raises TranslatorError.
-Translated: the kind sets _POSITIONAL, _KEYWORD, _POSITIONAL_KEYWORD_ONLY, _VARIADIC; from
-_function_incompatibilities the boolean expressions `swallowed` and the members of `incompatible_kind = any((...))`,
-as Coq boolean functions of (old kind, new kind, has_variadic_args, has_variadic_kwargs).
+Gen/C10_tables.v (shared with C11): the kind sets _POSITIONAL, _KEYWORD, _POSITIONAL_KEYWORD_ONLY, _VARIADIC; from
+_function_incompatibilities the boolean expressions `swallowed` and those members of `incompatible_kind = any((...))`
+that only look at (old kind, new kind, has_variadic_args, has_variadic_kwargs), as Coq boolean functions.
+Gen/C10_rules.v: the members of `incompatible_kind` that also look at the OLD signature (old_has_variadic_args,
+old_has_variadic_kwargs, new position < number of old positional parameters) as `collision_kind` (constantly false when
+there is none) with the flag COLLISION_RULE; the helper assignments they rely on are compared with their expected
+shapes.  The shapes of the new-side helpers (param_kinds / has_variadic_* / new_param_names), of the three non-kind
+rules' guards (required / moved / default) and of the default comparison (`old_param.default != new_param.default`
+inside try/except that reports on failure) are checked as well (they are modelled by hand in Model/C10_diff.v).
+From expressions.py: the annotated fields of `class ExprFormatted` decide FMT_LOSSY (conversion and format spec of an
+f-string replacement field are not kept, so two defaults differing there compare equal).
 """
 from __future__ import annotations
 
@@ -32,14 +40,28 @@ def _kind_of(node) -> str:
     raise TranslatorError(f"not a parameter kind expression: {ast.unparse(node)}")
 
 
-def _bexp(node) -> str:
+OLD_SIDE = {"old_has_variadic_args": "ohva", "old_has_variadic_kwargs": "ohvk"}
+NEW_INDEX = "new_param_names.index(old_param.name)"
+
+
+def _uses_old_side(node) -> bool:
+    return any(isinstance(n, ast.Name) and (n.id in OLD_SIDE or n.id in ("old_positional_count", "new_param_names", "new_index"))
+               for n in ast.walk(node))
+
+
+def _bexp(node, old_side: bool = False) -> str:
     if isinstance(node, ast.BoolOp):
         op = " && " if isinstance(node.op, ast.And) else " || "
-        return "(" + op.join(_bexp(v) for v in node.values) + ")"
+        return "(" + op.join(_bexp(v, old_side) for v in node.values) + ")"
     if isinstance(node, ast.UnaryOp) and isinstance(node.op, ast.Not):
-        return f"(negb {_bexp(node.operand)})"
+        return f"(negb {_bexp(node.operand, old_side)})"
     if isinstance(node, ast.Name) and node.id in ("has_variadic_args", "has_variadic_kwargs"):
         return "hva" if node.id == "has_variadic_args" else "hvk"
+    if old_side and isinstance(node, ast.Name) and node.id in OLD_SIDE:
+        return OLD_SIDE[node.id]
+    if (old_side and isinstance(node, ast.Compare) and len(node.ops) == 1 and isinstance(node.ops[0], ast.Lt)
+            and ast.unparse(node.left) in (NEW_INDEX, "new_index") and ast.unparse(node.comparators[0]) == "old_positional_count"):
+        return "reach"
     if isinstance(node, ast.Compare) and len(node.ops) == 1:
         lhs, op, rhs = node.left, node.ops[0], node.comparators[0]
         if isinstance(op, (ast.Is, ast.Eq)):
@@ -70,6 +92,7 @@ def translate(ctx=None) -> Path:
     if len(fn) != 1:
         raise TranslatorError("_function_incompatibilities not found")
     swallowed = incompatible = None
+    collision = []
     for n in ast.walk(fn[0]):
         if isinstance(n, ast.Assign) and len(n.targets) == 1 and isinstance(n.targets[0], ast.Name):
             if n.targets[0].id == "swallowed":
@@ -79,7 +102,12 @@ def translate(ctx=None) -> Path:
                 if not (isinstance(v, ast.Call) and isinstance(v.func, ast.Name) and v.func.id == "any" and len(v.args) == 1
                         and isinstance(v.args[0], (ast.Tuple, ast.List))):
                     raise TranslatorError(f"unexpected shape for incompatible_kind: {ast.unparse(v)[:200]}")
-                incompatible = "(" + "\n   || ".join(_bexp(e) for e in v.args[0].elts) + ")"
+                base = [e for e in v.args[0].elts if not _uses_old_side(e)]
+                extra = [e for e in v.args[0].elts if _uses_old_side(e)]
+                if not base:
+                    raise TranslatorError("incompatible_kind has no member over (old kind, new kind, new variadics)")
+                incompatible = "(" + "\n   || ".join(_bexp(e) for e in base) + ")"
+                collision = [_bexp(e, old_side=True) for e in extra]
     if swallowed is None or incompatible is None:
         raise TranslatorError("swallowed / incompatible_kind assignments not found")
     out = ["(* GENERATED by harness/translate/c10_tables.py from /repo/src/_griffe/diff.py -- do not edit *)",
@@ -91,6 +119,121 @@ def translate(ctx=None) -> Path:
             "(* `incompatible_kind` for old kind ok, new kind nk (evaluated only when ok <> nk) *)",
             "Definition incompatible_kind (ok nk : kind) (hva hvk : bool) : bool :=", "  " + incompatible + ".", ""]
     p = VERIF / "coq/Gen/C10_tables.v"
+    text = "\n".join(out)
+    if not p.exists() or p.read_text() != text:
+        p.write_text(text)
+    # the generated files always describe the tree under test when it can be translated at all; the shape check of the
+    # hand-modelled part comes last so that a failure there does not leave tables of an earlier tree behind
+    _write_rules(collision, _fmt_lossy())
+    _check_skeleton(fn[0], bool(collision))
+    return p
+
+
+# ---- shapes the hand-written part of the model relies on (compared as normalised source text) ----
+HELPERS_NEW = {
+    "new_param_names": "[param.name for param in new_function.parameters]",
+    "param_kinds": "{param.kind for param in new_function.parameters}",
+    "has_variadic_args": "ParameterKind.var_positional in param_kinds",
+    "has_variadic_kwargs": "ParameterKind.var_keyword in param_kinds",
+    "new_param": "new_function.parameters[old_param.name]",
+    "non_required": "not old_param.required and (not new_param.required)",
+    "non_variadic": "old_param.kind not in _VARIADIC and new_param.kind not in _VARIADIC",
+}
+HELPERS_OLD = {
+    "old_param_kinds": ["{param.kind for param in old_function.parameters}"],
+    "old_has_variadic_args": ["ParameterKind.var_positional in old_param_kinds"],
+    "old_has_variadic_kwargs": ["ParameterKind.var_keyword in old_param_kinds"],
+    "old_positional_count": ["sum((param.kind in _POSITIONAL for param in old_function.parameters))",
+                             "sum((1 for param in old_function.parameters if param.kind in _POSITIONAL))",
+                             "len([param for param in old_function.parameters if param.kind in _POSITIONAL])"],
+    "new_index": ["new_param_names.index(old_param.name)"],
+}
+GUARDS = [  # `if` tests that must occur in the function (the three non-kind rules, removal, kind dispatch, additions)
+    "old_param.name not in new_function.parameters",
+    "not swallowed",
+    "new_param.required and (not old_param.required)",
+    "old_param.kind in _POSITIONAL and new_param.kind in _POSITIONAL",
+    "new_index != old_index",
+    "old_param.kind is not new_param.kind",
+    "incompatible_kind",
+    "non_required and non_variadic",
+    "old_param.default != new_param.default",
+    "new_param.name not in old_function.parameters and new_param.required",
+]
+
+
+def _assignments(fn) -> dict:
+    out: dict = {}
+    for n in ast.walk(fn):
+        if isinstance(n, ast.Assign) and len(n.targets) == 1 and isinstance(n.targets[0], ast.Name):
+            out.setdefault(n.targets[0].id, []).append(ast.unparse(n.value))
+    return out
+
+
+def _check_skeleton(fn, has_collision: bool) -> None:
+    asg = _assignments(fn)
+    for name, want in HELPERS_NEW.items():
+        if asg.get(name) != [want]:
+            raise TranslatorError(f"helper `{name}` of _function_incompatibilities is {asg.get(name)}, expected [{want!r}]")
+    for name, wants in HELPERS_OLD.items():
+        got = asg.get(name)
+        if got is None:
+            continue
+        if len(got) != 1 or got[0] not in wants:
+            raise TranslatorError(f"old-side helper `{name}` is {got}, expected one of {wants}")
+    if has_collision:
+        for name in ("old_has_variadic_args", "old_has_variadic_kwargs", "old_positional_count", "old_param_kinds"):
+            if name not in asg:
+                raise TranslatorError(f"old-side helper `{name}` used by incompatible_kind is not assigned")
+    tests = [ast.unparse(n.test) for n in ast.walk(fn) if isinstance(n, ast.If)]
+    # the return-type rule follows the parameter rules; it is outside this property
+    tests = [t for t in tests if "_returns_are_compatible" not in t]
+    if sorted(tests) != sorted(GUARDS):
+        raise TranslatorError(f"`if` tests of _function_incompatibilities changed: {sorted(set(tests) ^ set(GUARDS))}")
+    loops = [(ast.unparse(n.target), ast.unparse(n.iter)) for n in ast.walk(fn) if isinstance(n, ast.For)]
+    if loops != [("(old_index, old_param)", "enumerate(old_function.parameters)"), ("new_param", "new_function.parameters")]:
+        raise TranslatorError(f"loops of _function_incompatibilities changed: {loops}")
+    # the default comparison sits in a try whose handler reports the breakage too
+    tries = [n for n in ast.walk(fn) if isinstance(n, ast.Try)]
+    if len(tries) != 1 or len(tries[0].handlers) != 1 or not any(isinstance(x, (ast.Yield, ast.YieldFrom)) for h in tries[0].handlers for x in ast.walk(h)):
+        raise TranslatorError("the default comparison is no longer `try: if old != new: yield ... except: yield ...`")
+
+
+def _fmt_lossy() -> bool:
+    tree = ast.parse((REPO / "src/_griffe/expressions.py").read_text())
+    cls = [n for n in tree.body if isinstance(n, ast.ClassDef) and n.name == "ExprFormatted"]
+    if len(cls) != 1:
+        raise TranslatorError("class ExprFormatted not found in expressions.py")
+    dec = [ast.unparse(d) for d in cls[0].decorator_list]
+    if not any(d.startswith("dataclass(") and "eq=True" in d for d in dec):
+        raise TranslatorError(f"ExprFormatted is no longer a dataclass with eq=True: {dec}")
+    fields = [n.target.id for n in cls[0].body if isinstance(n, ast.AnnAssign) and isinstance(n.target, ast.Name)]
+    if fields == ["value"]:
+        return True
+    if fields and fields[0] == "value" and any("conv" in f for f in fields) and any("spec" in f for f in fields):
+        return False
+    raise TranslatorError(f"fields of ExprFormatted not understood: {fields}")
+
+
+def rules_info() -> tuple:
+    """(has an old-side member in incompatible_kind, ExprFormatted drops conversion/spec) read from the tree under test."""
+    tree = ast.parse((REPO / "src/_griffe/diff.py").read_text())
+    fn = [n for n in tree.body if isinstance(n, ast.FunctionDef) and n.name == "_function_incompatibilities"][0]
+    coll = any(isinstance(n, ast.Name) and n.id in OLD_SIDE for n in ast.walk(fn))
+    return coll, _fmt_lossy()
+
+
+def _write_rules(collision: list, fmt_lossy: bool) -> Path:
+    body = "(" + "\n   || ".join(collision) + ")" if collision else "false"
+    out = ["(* GENERATED by harness/translate/c10_tables.py from /repo/src/_griffe/diff.py and expressions.py -- do not edit *)",
+           "From Coq Require Import List Bool.", "From Verif Require Import Model.C10_kinds Gen.C10_tables.", "Import ListNotations.", "",
+           "(* members of `incompatible_kind` that look at the OLD signature: ohva/ohvk = old has a var-positional / var-keyword,",
+           "   reach = the parameter's new position is below the number of old positional parameters *)",
+           f"Definition COLLISION_RULE : bool := {'true' if collision else 'false'}.",
+           "Definition collision_kind (ok nk : kind) (hva hvk ohva ohvk reach : bool) : bool :=", "  " + body + ".", "",
+           "(* ExprFormatted keeps only the value of an f-string replacement field (conversion and format spec are dropped) *)",
+           f"Definition FMT_LOSSY : bool := {'true' if fmt_lossy else 'false'}.", ""]
+    p = VERIF / "coq/Gen/C10_rules.v"
     text = "\n".join(out)
     if not p.exists() or p.read_text() != text:
         p.write_text(text)
